@@ -272,6 +272,14 @@ def search(ctx):
         good = InitEccAuthBlock(1).pack(bytes(16), [EccEncryptor(1, priv.public_key)])
         bad_points = [bytes(64), (P).to_bytes(32, "big") + good[34:66], good[2:34] + (P + 1).to_bytes(32, "big"),
                       good[2:34] + bytes(32), bytes(32) + good[34:66]]
+        # coordinates >= p that are CONGRUENT to an on-curve point (x + p with small x; p = 3 mod 4)
+        for x in range(0, 200):
+            rhs = (x * x * x + A * x + Bc) % P
+            y = pow(rhs, (P + 1) // 4, P)
+            if y * y % P == rhs and x + P < 2 ** 256:
+                bad_points.append((x + P).to_bytes(32, "big") + y.to_bytes(32, "big"))
+                if len([1 for b_ in bad_points if int.from_bytes(b_[:32], "big") >= P]) > 12:
+                    break
         for _ in range(ctx.budget(40, 600)):
             x = r.randrange(P)
             y = r.randrange(P)
